@@ -564,12 +564,17 @@ def reloc_reference(d):
             heldV, vmoved = ref_relocate(d["origV"], B)
         else:
             heldV = d["origV"]
+    d["ref_src"] = src
     return held, heldV, band, moved, vmoved
 
-def del_band(grid, V):
+def del_band(grid, V, grid0=None, V0=None):
     """Delaunay on vertices that are no longer lattice points: three vertices nearly collinear / two nearly equal, or a data
     point within 1e-9 (barycentric) of an edge without being exactly on it (qhull's find_simplex has its own tolerance; the
-    oracle's contract is checked in exact arithmetic)"""
+    oracle's contract is checked in exact arithmetic).  grid0 / V0 = the grids before relocation: a point EXACTLY on an edge
+    or vertex is only meaningful between coordinates the relocator left alone (a moved coordinate of the implementation may
+    differ from this reference by an ulp)"""
+    moved_q = [grid0 is not None and grid[i] != grid0[i] for i in range(len(grid))]
+    moved_v = [V0 is not None and V[j] != V0[j] for j in range(len(V))]
     import scipy.spatial
     eps = F(1, 10 ** 9)
     span = max(max(abs(c) for p in V for c in p), F(1))
@@ -579,12 +584,13 @@ def del_band(grid, V):
         tri = scipy.spatial.Delaunay(np.array([[float(p[0]), float(p[1])] for p in V]))
     except Exception:
         return True
-    for q in grid:
+    for qi, q in enumerate(grid):
         for row in tri.simplices:
             v0, v1, v2 = (V[int(j)] for j in row)
+            inexact = moved_q[qi] or any(moved_v[int(j)] for j in row)
             dd = cross(v0, v1, v2)
             for sgn in (cross(q, v1, v2), cross(v0, q, v2), cross(v0, v1, q)):
-                if sgn != 0 and abs(sgn) < eps * abs(dd): return True
+                if (sgn != 0 or inexact) and abs(sgn) < eps * abs(dd): return True
     return False
 
 def make_mapper(aa, inp, mask=None, osr=None, adapt=None, reg=None, mesh=None):
@@ -770,7 +776,7 @@ def run_hist(aa, inp):
         if b.get("reloc"):
             ref_held, ref_V, band, moved, vmoved = reloc_reference(d)
             if band or (b["op"] == "rect" and in_band(ref_held, tuple(b["shape"]), F(b["buffer"]))) \
-               or (b["op"] == "del" and del_band(ref_held, ref_V)):
+               or (b["op"] == "del" and del_band(ref_held, ref_V, d["ref_src"], d["origV"])):
                 return skip("a relocation / cell-boundary / simplex-edge decision of a mapper built through the mesh API inside its band")
             d["moved"] = moved + vmoved
         ds.append(d)
@@ -915,7 +921,7 @@ def run_case_base(aa, inp):
             if band: return skip("a relocation decision (radius vs border radius) inside C18's band", op + ":api:skipped_in_band")
             if op == "rect" and in_band(ref_held, tuple(inp["shape"]), F(inp["buffer"])):
                 return skip("a relocated point within the decision band of a cell boundary", "rect:api:skipped_in_band")
-            if op == "del" and del_band(ref_held, ref_V):
+            if op == "del" and del_band(ref_held, ref_V, d["ref_src"], d["origV"]):
                 return skip("relocated vertices nearly degenerate / a relocated point within 1e-9 of a simplex edge", "del:api:skipped_in_band")
             TALLY["mesh_api_cases"] = TALLY.get("mesh_api_cases", 0) + 1
             TALLY["mesh_api_sub_pixels_moved_by_the_relocator"] = TALLY.get("mesh_api_sub_pixels_moved_by_the_relocator", 0) + moved
